@@ -1080,6 +1080,33 @@ func ioSweeps() ([][]Op, []string) {
 		mk("sweep=numbers", L("open", "w+", ioHx("")), L("write", ioHx("10"+sep+"20")), L("seek", "set", "0"), L("read", "N"), L("seek", "cur", "0"),
 			L("write", ioHx("X")), L("seek", "set", "0"), L("read", "a"), L("close"), L("disk"))
 	}
+	// a whole file of numbers read one after the other: the white space BETWEEN two numbers (runs of 1, 2 and more bytes,
+	// every line-end form) straddles each read-ahead boundary at every alignment, with the buffer partly consumed by the
+	// reads before
+	for _, sep := range []string{" ", "\r\n", "\n\n", " \t ", "\r\n\r\n ", "      "} {
+		for shift := 0; shift < 7; shift++ {
+			var sb strings.Builder
+			sb.WriteString(pad(shift)[:shift])
+			if shift > 0 {
+				sb.WriteString(" ")
+			}
+			count := 0
+			for sb.Len() < 3*4096+40 {
+				sb.WriteString(strconv.Itoa(1000 + count%9000))
+				sb.WriteString(sep)
+				count++
+			}
+			ls := [][]string{L("open", "r", ioHx(sb.String()))}
+			if shift > 0 {
+				ls = append(ls, L("read", "n"+strconv.Itoa(shift)))
+			}
+			for i := 0; i < count; i += 4 {
+				ls = append(ls, L("read", "N", "N", "N", "N"))
+			}
+			ls = append(ls, L("read", "N"), L("seek", "cur", "0"), L("close"))
+			mk("sweep=number-stream", ls...)
+		}
+	}
 	mk("sweep=numbers", L("open", "r", ioHx("5 abc")), L("read", "N", "N"), L("seek", "cur", "0"), L("read", "a"), L("close"))
 	mk("sweep=numbers", L("open", "r", ioHx("abc")), L("read", "N"), L("seek", "cur", "0"), L("close"))
 	mk("sweep=numbers", L("open", "r", ioHx("x 5 y")), L("read", "n1", "N", "n2"), L("close"))
